@@ -5,7 +5,8 @@
                (identical up to number / escape notation; decided by the driver),
                cycles = Seq([load, modelEq, textEq]) for the following load/write cycles,
                inScope = the input satisfies the preconditions of C05,
-               file = [ok, banner, eq]: A2lFile::write(path, banner) followed by load(path) (only recorded for C01) *)
+               file = [ok, banner, eq]: A2lFile::write(path, banner) followed by load(path) (only recorded for C01)
+   pair event: [pair, sameValue, eq, eqRev]: two documents that differ in one parameter token *)
 EXTENDS Integers, Sequences, TLC, Json, IOUtils
 
 Rec == ndJsonDeserialize(IOEnv.TRACE)
@@ -32,7 +33,13 @@ CyclesStable(ev) ==
     \* and the file with its banner is a fixpoint of load / write with the same banner
     /\ "file" \in DOMAIN ev => Chk("FileWriteLoad", ev.file.ok /\ ev.file.banner /\ ev.file.eq) /\ Chk("FileWithBannerIsFixpoint", ev.file.fix)
 
+\* pair event: two documents that differ in one parameter token; sameValue = the tokens are lexically equivalent (another
+\* notation of the same value).  The == of the library, on which ModelEqual rests, holds exactly for equal values.
+PairVerdict(ev) ==
+    /\ Chk("EqualityIsByValue", ev.eq = ev.sameValue)
+    /\ Chk("EqualityIsSymmetric", ev.eq = ev.eqRev)
 Verdict(ev) ==
+  IF "pair" \in DOMAIN ev THEN ("C01" \in Judge => PairVerdict(ev)) ELSE
     /\ ("C02" \in Judge => ContentPreserved(ev))
     /\ ("C05" \in Judge => LinePreservedObserved(ev) /\ Chk("CanonicalIsFixpoint", Len(ev.cycles) > 0 => (ev.cycles[1].load = "ok" /\ ev.cycles[1].text_eq)))
     /\ ("C01" \in Judge => CyclesStable(ev))
